@@ -30,6 +30,24 @@ type inferArgs struct {
 		Type json.RawMessage `json:"type"`
 		Opts inferOpts       `json:"opts"`
 	} `json:"pre"`
+	// Warm: types on which ForType is called BEFORE the call under test with the SAME *ForOptions value (one TypeSchemas map, one
+	// set of entry schemas shared by all the calls), results discarded: what a program that keeps its options in a variable does.
+	// Empty (the default): the call under test is the first use of its options object.
+	Warm []json.RawMessage `json:"warm"`
+}
+
+// runWarm performs the earlier calls that share the options object of the call under test.
+func (a *inferArgs) runWarm(opts *jsonschema.ForOptions) {
+	for _, w := range a.Warm {
+		t, err := buildType(w)
+		if err != nil {
+			continue
+		}
+		func() {
+			defer func() { recover() }()
+			jsonschema.ForType(t, opts)
+		}()
+	}
 }
 
 // runPre performs the earlier calls of the history and discards their results.
@@ -327,9 +345,13 @@ func init() {
 		}
 		res := map[string]any{"features": features(t), "gotype": t.String()}
 		a.runPre()
+		a.runWarm(opts)
 		s, err := jsonschema.ForType(t, opts)
 		if err != nil || s == nil {
 			res["outcome"] = "error"
+			if err != nil {
+				res["detail"] = err.Error()
+			}
 			return res, nil
 		}
 		rs, err := s.Resolve(nil)
